@@ -1,4 +1,4 @@
-INIT Init
+INIT InitQ
 NEXT Next
 INVARIANT MemLaws ExprAgree DivTotal WideAgree RewriteSanity PoisonLaws BlockRun Control
 CHECK_DEADLOCK FALSE
